@@ -236,13 +236,10 @@ def reconstruct_edges(calls):
 def schema_triples(facts):
     """Allowed (parentKind, childKind, body, op) from the generated tables."""
     allowed = set()
-    gs = facts.get("gc_schema", {})
-    kinds = gs.get("kind_names", [])
-    for body_name, table in (("mark", gs.get("mark_ops", {})), ("blacken", gs.get("blacken_ops", {}))):
-        for k, ops in table.items():
-            kn = kinds[int(k)] if str(k).isdigit() else k
-            for (fid, tk, is_b) in ops:
-                allowed.add((kn, kinds[tk], body_name, "blacken" if is_b else "mark"))
+    for k in facts.get("gc", {}).get("kinds", []):
+        for body_name, key in (("mark", "mark_ops"), ("blacken", "blacken_ops")):
+            for op in k.get(key, []):
+                allowed.add((k["name"], op["target_name"], body_name, op["op"]))
     return allowed
 
 
